@@ -25,7 +25,7 @@ import (
 	"github.com/google/mtail/verif/fsdrv"
 )
 
-var ops = []string{"line", "frag", "crlf", "truncate", "rotate", "copytruncate", "delete", "recreate", "poll"}
+var ops = []string{"line", "frag", "crlf", "truncate", "rotate", "copytruncate", "delete", "recreate", "poll", "fragcr", "lf"}
 
 type model struct {
 	exists  bool
@@ -180,11 +180,12 @@ func runHistory(base string, idx int, hist []string, preMode int) (what string, 
 		w.seq++
 		id := fmt.Sprintf("g%d-%d", w.gen, w.seq)
 		switch op {
-		case "line", "frag", "crlf":
+		case "line", "frag", "crlf", "fragcr", "lf":
 			if !m.exists {
 				continue
 			}
-			s := map[string]string{"line": "L" + id + "\n", "frag": "F" + id, "crlf": "C" + id + "\r\n"}[op]
+			// fragcr + lf: a CRLF line whose CR and LF arrive in different appends
+			s := map[string]string{"line": "L" + id + "\n", "frag": "F" + id, "crlf": "C" + id + "\r\n", "fragcr": "R" + id + "\r", "lf": "\n"}[op]
 			if err := appendFile(w.path, s); err != nil {
 				return fail("append: " + err.Error())
 			}
@@ -289,7 +290,7 @@ func runHistory(base string, idx int, hist []string, preMode int) (what string, 
 func TestC16(t *testing.T) {
 	r := ev.Start(t, "C16", "exploration")
 	defer r.Finish()
-	maxLen := ev.Pick(3, 5)
+	maxLen := ev.Pick(3, 4)
 	r.Rule(fmt.Sprintf("every sequence of length <=%d over {append line, append fragment, append CRLF line, truncate, rename+create, copy+truncate, delete, recreate, poll-without-change} plus random sequences of length 12 (quick) / 40 (thorough), with and without content present before tailing begins, executed on the real filesystem against a real tailer.Tailer; after every step a logical barrier (harness wakers: every live stream is back at its waker; after delete the stream is gone; after recreate the pattern poll has run) so that the tailer has observed the step. Final delivered sequence == model's expected sequence (unique ids). Non-trivial: history with an append after a generation change or a fragment at a generation end; distinct by history.", maxLen))
 	r.Assume("a truncate when nothing of the generation has been read yet is not a generation end (nothing to lose)", "steps on a non-existent file (other than recreate) are skipped", "only the final delivered sequence is compared (the forwarder may hold the last line at a barrier)")
 	_ = io.EOF
@@ -311,7 +312,7 @@ func TestC16(t *testing.T) {
 	rec(nil)
 	r.Set("exhaustive_histories", len(hists))
 	rng := ev.NewRNG(ev.Seed(), "c16")
-	for i := 0; i < ev.Pick(300, 3000); i++ {
+	for i := 0; i < ev.Pick(300, 5000); i++ {
 		g := rng.Sub(i)
 		var h []string
 		for k := 0; k < ev.Pick(12, 40); k++ {
@@ -361,7 +362,7 @@ func TestC16(t *testing.T) {
 				if k > 0 && h[k-1] == "frag" {
 					nt = true
 				}
-			case "line", "crlf", "frag":
+			case "line", "crlf", "frag", "fragcr", "lf":
 				if genChange {
 					nt = true
 				}
